@@ -119,6 +119,9 @@ func (sessionTap) AfterStep(rc *RunCtx, i int, st *Step, res *StepResult) *Viola
 	if st.Op == "sync" {
 		s.noteRPC(res)
 	}
+	if st.Op == "newclient" {
+		delete(rc.Excluded, st.C)
+	}
 	return nil
 }
 func (sessionTap) Final(rc *RunCtx) *Violation { return nil }
